@@ -28,6 +28,9 @@ done
   echo '}}'
 } > "$tmp/overlay.json"
 export VERIF_OVERLAY=$tmp/overlay.json
+# keep the artefacts of mutant runs out of /verif/evidence and /verif/violations (override to inspect them)
+export VERIF_EVIDENCE_DIR=${VERIF_EVIDENCE_DIR:-$tmp/evidence}
+export VERIF_VIOLATIONS_DIR=${VERIF_VIOLATIONS_DIR:-/tmp/verif-mutant-violations}
 if [ $mode = tests ]; then
   export GOFLAGS=-mod=mod GOPROXY=off GOSUMDB=off GOTOOLCHAIN=local
   if [ $# -gt 0 ]; then pkgs="$*"; else pkgs=$(for f in $files; do echo "./$(dirname "$f")/..."; done | sort -u); fi
